@@ -418,6 +418,11 @@ def gen_block(rnd, kind=None):
         return gen_grammar_block(rnd, Profile(**MEM_PROFILE)), kind
     if kind == "split":
         return gen_grammar_block(rnd, Profile(**SPLIT_PROFILE)), kind
+    if kind == "long":
+        return gen_grammar_block(rnd, Profile(minlen=15, maxlen=60, w_mem=3.0, w_sto=2.0, max_need=8)), kind
+    if kind == "splitlong":
+        return gen_grammar_block(rnd, Profile(minlen=15, maxlen=60, w_split=0.8, w_mem=2.5, w_sto=1.5, terminal=0.5,
+                                              max_need=8)), kind
     if kind == "deep":
         return gen_grammar_block(rnd, Profile(deep=True, max_need=20, maxlen=40, w_stack=6.0)), kind
     raise ValueError(kind)
@@ -633,3 +638,86 @@ def gen_sfs(rnd, n_src=None, n_instr=None, wide=False):
          "dependencies": sto + mem, "is_revert": False, "rules_applied": False, "rules": [],
          "original_instrs": "", "min_length_instrs": 0, "min_length_bounds": 0, "min_length": 0}
     return S
+
+
+# ------------------------------------------------------------------ solc assembly JSON documents
+def _code_stream(rnd, nblocks, kinds, tagbase, opt_fields=True, src_max=2):
+    items = []
+    pos = 0
+    tags = list(range(tagbase, tagbase + nblocks + 1))
+
+    def item(name, value=None, jump=None):
+        nonlocal pos
+        d = {"begin": pos, "end": pos + rnd.randrange(1, 9), "name": name, "source": rnd.randrange(-1, src_max)}
+        if value is not None:
+            d["value"] = value
+        if jump is not None and opt_fields:
+            d["jumpType"] = jump
+        if opt_fields and rnd.random() < 0.1:
+            d["modifierDepth"] = rnd.randrange(1, 3)
+        pos += rnd.randrange(0, 12)
+        return d
+    fall = True
+    for i in range(nblocks):
+        if i > 0 or rnd.random() < 0.3:
+            items.append(item("tag", str(tags[i])))
+            items.append(item("JUMPDEST"))
+        blk, _ = gen_block(rnd, rnd.choice(kinds))
+        blk = [p for p in blk if p[0] not in evm.TERMINAL and p[0] != "PUSH [tag]"]
+        for n, v in blk:
+            if n == "PUSH [tag]":
+                v = str(rnd.choice(tags))
+            items.append(item(n, v))
+        t = rnd.choice(["JUMP", "JUMPI", "STOP", "RETURN", "REVERT", "INVALID", "fall", "JUMP", "JUMPI", "fall"])
+        if t == "JUMP":
+            items.append(item("PUSH [tag]", str(rnd.choice(tags))))
+            items.append(item("JUMP", None, rnd.choice(["[in]", "[out]", None])))
+        elif t == "JUMPI":
+            items.append(item("PUSH [tag]", str(rnd.choice(tags))))
+            items.append(item("JUMPI"))
+        elif t in ("RETURN", "REVERT"):
+            items.append(item("PUSH", hexv(rnd.choice([0, 0x20, 0x40]))))
+            items.append(item("PUSH", hexv(rnd.choice([0, 0x80]))))
+            items.append(item(t))
+        elif t != "fall":
+            items.append(item(t))
+    return items
+
+
+def gen_document(rnd, n_contracts=None, blocks_per_stream=None, kinds=None, version=None, nested=True):
+    """A solc --combined-json asm document with generated blocks spliced between tags and jumps."""
+    kinds = kinds or ["rule", "grammar", "mem", "split"]
+    n_contracts = n_contracts or rnd.randrange(1, 4)
+    version = version or rnd.choice(["0.8.5+commit.a4f2e591.Linux.g++", "0.8.15+commit.e14f2714.Linux.g++",
+                                     "0.8.21+commit.d9974bed.Linux.g++"])
+    new_style = not version.startswith("0.8.5")
+    contracts = {}
+    for c in range(n_contracts):
+        name = "contracts/File%d.sol:C%d" % (rnd.randrange(3), c)
+        nb = blocks_per_stream or rnd.randrange(1, 6)
+        asm = {".code": _code_stream(rnd, nb, kinds, 1, opt_fields=True)}
+        data = {}
+        run = {".code": _code_stream(rnd, blocks_per_stream or rnd.randrange(1, 7), kinds, 1)}
+        if rnd.random() < 0.9:
+            run[".auxdata"] = "a2646970667358221220%064x64736f6c6343000805" % rnd.getrandbits(256)
+        if nested and rnd.random() < 0.4:
+            inner = {"%064X" % rnd.getrandbits(256): "%0128x" % rnd.getrandbits(512)}
+            if rnd.random() < 0.5:
+                inner["0"] = {".code": _code_stream(rnd, 1, kinds, 1), ".auxdata": "a264%060x" % rnd.getrandbits(240)}
+            run[".data"] = inner
+        data["0"] = run
+        if rnd.random() < 0.3:
+            data["%064X" % rnd.getrandbits(256)] = "%064x" % rnd.getrandbits(256)
+        if rnd.random() < 0.2:
+            data["1"] = {".code": _code_stream(rnd, rnd.randrange(1, 3), kinds, 1),
+                         ".auxdata": "a264%060x" % rnd.getrandbits(240)}
+        asm[".data"] = data
+        if new_style:
+            asm["sourceList"] = ["contracts/File0.sol", "contracts/File1.sol", "#utility.yul"][:rnd.randrange(1, 4)]
+        contracts[name] = {"asm": asm}
+    # contracts without assembly (interfaces, abstract contracts), in both spellings
+    for k in range(rnd.randrange(0, 3)):
+        contracts["contracts/File%d.sol:I%d" % (rnd.randrange(3), k)] = {} if rnd.random() < 0.6 else {"asm": None}
+    names = list(contracts)
+    rnd.shuffle(names)
+    return {"contracts": {n: contracts[n] for n in names}, "version": version}
